@@ -59,6 +59,8 @@ def replay(prop, path):
         ad = cls(c["adapter"], max_errors=c["rate"], min_overlap=c["min_overlap"], indels=c["indels"],
                  adapter_wildcards=c["adapter_wildcards"], read_wildcards=c["read_wildcards"], name="x", **kw)
         if mock:
+            import pickle
+            ad = pickle.loads(pickle.dumps(ad))
             ad.kmer_finder = MockKmerFinder()
         return ad
 
@@ -70,7 +72,7 @@ def replay(prop, path):
     if prop == "C07":
         return 0 if own == mock else 1
     import ctypes
-    ad = mk(c.get("finder") == "mock" or prop == "C02")
+    ad = mk(str(c.get("finder")).startswith("mock"))
     rs = refalign.ReadSet([c["read"]])
     m = ad.match_to(c["read"])
     t = tup(m)
